@@ -1023,7 +1023,7 @@ static void fam_c11_manyarenas(G& g, Plan& p) {
   if (g.chance(0.3)) set_env(p, "PURGE_DELAY", g.pick({0, 1, 10}));
   p.cfg.madv_free_mode = 1;
   p.progs.resize(1); p.nslots = 80; Program& P0 = p.progs[0];
-  const int N = 3 + (int)g.below(3);
+  const int N = 6 + (int)g.below(2);
   Rng shape; shape.seed(g.r.next());
   for (int rep = 0; rep < N; rep++) {
     Rng r2 = shape; G g2(p, 0, g.build); g2.r = r2; g2.padded = g.padded;
@@ -1036,7 +1036,7 @@ static void fam_c11_manyarenas(G& g, Plan& p) {
     P0.ops.push_back(mk(OP_free_all));
     P0.ops.push_back(mk(OP_footprint_mark));
   }
-  uint64_t fl = 0; if (purge >= 7) fl |= 2;
+  uint64_t fl = 8; if (purge >= 7) fl |= 2;      // 8: the arena layout may take a few repetitions to settle (reserve doubling)
   P0.ops.push_back(mk(OP_giveback_check, -1, fl));
 }
 
